@@ -5,6 +5,7 @@ import (
 	"context"
 	"fmt"
 	"math"
+	"sync"
 	"sync/atomic"
 	"testing"
 	"time"
@@ -203,6 +204,14 @@ func body(s *simrt.Sim, tier string) {
 	if goneAfterCancel {
 		goneC = ctx.Done()
 	}
+	// with a Close racing the Adds (term 2), one run in three the owner stops reading the moment it calls Close: the
+	// signals still under way have nowhere to go, and Close returns all the same (its helpers end with it)
+	goneAfterClose := term == 2 && !goneAfterCancel && s.Choose(3, "goneAfterClose") == 0
+	closeCalled := make(chan struct{})
+	var closeCalledOnce sync.Once
+	if goneAfterClose {
+		goneC = closeCalled
+	}
 	s.Go("runner", func() {
 		runErr = rl.Run(ctx, ch)
 		s.Yield("run.ret")
@@ -210,6 +219,14 @@ func body(s *simrt.Sim, tier string) {
 	})
 	s.Go("consumer", func() {
 		for !stopConsumer.Load() {
+			if goneAfterClose {
+				select {
+				case <-closeCalled:
+					s.Fault("consumer.gone")
+					return
+				default:
+				}
+			}
 			if goneAfterCancel && ctx.Err() != nil {
 				// whoever cancelled the context is no longer interested in signals: nobody reads the channel
 				// any more, and Run and Close return all the same
@@ -294,6 +311,7 @@ func body(s *simrt.Sim, tier string) {
 	closer := func() {
 		s.Logf("close")
 		before := s.Stamp()
+		closeCalledOnce.Do(func() { close(closeCalled) })
 		rl.Close()
 		// helper goroutines of Adds that had been issued before this Close was called have finished as well
 		if l := s.LiveBornBefore("coalescing.Add", before); len(l) > 0 {
